@@ -7,6 +7,7 @@ import SqlgrepModel.Drivers.Extract
 import SqlgrepModel.Drivers.Join
 import SqlgrepModel.Drivers.Lex
 import SqlgrepModel.Drivers.ParseStmt
+import SqlgrepModel.Drivers.ParseExpr
 /- Line protocol driver: `<kind> <payload…>` per line in, one answer line out. -/
 open Sqlgrep
 
@@ -32,6 +33,7 @@ def dispatch (line : String) : String :=
     | "near" => Drivers.Lex.handleNear args
     | "pstmt" => Drivers.ParseStmt.handle args
     | "stmt" => Drivers.ParseStmt.handleStmt args
+    | "pexpr" => Drivers.ParseExpr.handle args
     | _ => "unknown-kind"
   | _ => "bad-line"
 
